@@ -6,7 +6,12 @@ emergent field), <= 5 (demag); seeded textures, masks, rotations, rescalings.
 
 The lattice (Berg-Luescher) method is additionally compared with an independent oracle on the whole range of
 spherical triangles (Girard's theorem in 200-bit arithmetic): the signed solid angle itself, the per-cell density
-with validity handling, and the charge of coarse / rough closed textures (neighbouring vectors up to ~179 degrees apart)."""
+with validity handling, and the charge of coarse / rough closed textures (neighbouring vectors up to ~179 degrees apart).
+
+Metadata of the input field: every tool is a spatial formula on the stored component arrays in their stored order, so every value clause is also stated for
+fields with a non-default vdim_mapping (all permutations, empty, partial, repeated), component labels, renamed / permuted mesh directions and units, a unit,
+dtype float32 / int, the three forms of the mask, and 2-d fields obtained by slicing a 3-d field; each result is compared with that of the plain
+default-metadata field holding the same numbers (C19.meta_independent), and the emergent field's own mapping / divergence is checked (C19.emergent_meta)."""
 import itertools
 import math
 import warnings
@@ -31,7 +36,7 @@ CLAUSES = {
     "C19.quarter_turn": "Q (both methods) is unchanged by Field.rotate90 of the sample (k = 1, 2, 3; mesh, mask and in-plane components rotate); |dQ| <= 1e-10*max(1, int|q|)",
     "C19.reversal": "Q (both methods) changes sign when all vectors are reversed; the absolute charge does not change; |Q(-f)+Q(f)| <= 1e-10*max(1, int|q|)",
     "C19.uniform_zero": "density and charge (both methods, with and without absolute) vanish for uniform fields, for every validity mask; |.| <= 1e-12",
-    "C19.bl_integer": "Berg-Luescher charge of a compactly supported texture winding w times with polarity p (two uniform boundary layers) is the integer -w*p, |Q+w*p| <= 1e-9, also after a global rotation of the vectors (then integer: the same one)",
+    "C19.bl_integer": "Berg-Luescher charge of a compactly supported texture winding w times with polarity p (two uniform boundary layers) is the integer -w*p, |Q+w*p| <= 1e-9 (dtype float32: 64 float32 ulp), also after a global rotation of the vectors (then integer: the same one)",
     "C19.bl_integer_coarse": "the same on coarse meshes (6..8 cells per axis, one uniform boundary layer, |w| = 1, both polarities, radius >= 1.5 cell half-diagonals*sqrt2, neighbouring vectors up to > 100 deg apart): Berg-Luescher charge is the integer -w*p, |Q+w*p| <= 1e-9, after a global rotation the same integer, after reversal of all vectors +w*p",
     "C19.bl_angle_value": "util.bergluescher_angle(v1,v2,v3) is the signed area/(4 pi) of the geodesic triangle v1 v2 v3 (sign of v1.(v2 x v3); oracle: Girard's angle excess in 200-bit arithmetic) for all non-exceptional triangles - small, needle-like, larger than a quarter sphere, nearly a hemisphere, nearly antipodal pairs; budget 16 eps/rho + 4 eps with rho = sqrt(2(1+v1.v2)(1+v2.v3)(1+v3.v1)) the conditioning of the phase; exactly 0 for coplanar vectors in a half plane or repeated vectors; +-1/8 for octants, +-1/4 for tetrahedron faces",
     "C19.bl_angle_range": "the signed area/(4 pi) lies in [-1/2, 1/2]",
@@ -46,12 +51,21 @@ CLAUSES = {
     "C19.emergent": "emergent field at interior cells equals m.(d_k m x d_l m) (cyclic kl = yz, zx, xy) with central differences (256 ulp of the product of the inverse cell edges); 3 components on the same mesh; zero for a uniform field",
     "C19.angle_value": "neighbouring_cell_angle equals the angle between the two unit vectors (atan2(|u x v|, u.v) oracle; rounding budget 64 ulp propagated through arccos: 64*eps/max(sin t, sqrt(eps)) + 64 eps*pi); deg == rad*180/pi",
     "C19.angle_range": "all angles lie in [0, pi] (deg: [0, 180])",
-    "C19.angle_mesh": "the angle field is scalar and lives on a mesh with n-1 cells in that direction (same n elsewhere), same cell, region shrunk by half a cell at both ends in that direction (8 ulp of the coordinate scale)",
+    "C19.angle_mesh": "the angle field is scalar and lives on a mesh with n-1 cells in that direction (same n elsewhere), same cell, same names and units of the directions, region shrunk by half a cell at both ends in that direction (8 ulp of the coordinate scale)",
     "C19.angle_max": "max_neighbouring_cell_angle(f)[i] == max of the angles to the (up to 2*ndim) neighbours of cell i, on the field's own mesh",
     "C19.demag_trace": "Nxx+Nyy+Nzz of demag_tensor(mesh) is -1 at every frequency (modulus 1; the phase is that of the tensor origin sitting in the central cell of the (2n-1) array, i.e. the real-space trace is -1 in the central cell and 0 elsewhere); a-priori rounding budget of the 64-term Newell differences",
     "C19.demag_impls": "demag_tensor(mesh) and _demag_tensor_field_based(mesh) agree (same mesh, vdims xx,yy,zz,xy,xz,yz, values within the Newell rounding budget)",
     "C19.demag_cuboid": "mean demag field of a uniformly magnetised cuboid: mean H_k for M along k, summed over k = x,y,z, equals -|M|; -M/3 each for a cube; transverse means vanish (Newell rounding budget * |M|)",
     "C19.demag_factors": "mean H_k for M along k equals -N_k*M with N_k the analytic demagnetising factor of the cuboid (Aharoni 1998), budget + 1e-11",
+    "C19.meta_independent": "every tool (density and charge by both methods, emergent field, Bloch-point count and arrangement, neighbour angles and their maximum, demag tensor / field) "
+                            "is a spatial formula on the stored component arrays in their stored order: for a field with non-default metadata (vdim_mapping: every permutation of the directions, "
+                            "empty, partial, all None, repeated / non-existing targets; component labels; renamed or permuted names and units of the mesh directions; a unit; dtype float32 / int64 / int32; "
+                            "mask given as array, as 'norm' or left at its default; a 2-d field obtained by slicing a 3-d one) it returns what it returns for the plain default-metadata float64 "
+                            "field holding the same numbers and the same mask - within twice the rounding budget of the corresponding value clause, eps being that of the stored dtype; "
+                            "Bloch-point counts and arrangements are equal; demag_field equals the real-space sum over cells of N(r_i-r_j)M_j with the tensor of the plain mesh; "
+                            "the demag functions alone may instead refuse renamed components / directions (any exception, cf. C19.refuse)",
+    "C19.emergent_meta": "component k of the emergent field belongs to the k-th direction of the mesh whatever the input's components are declared to point along: "
+                         "vdim_mapping == {vdims[k]: dims[k]}, and its .div (what count_bps integrates) is sum_k d_k F_k with central differences at interior cells (64 ulp of max|F| * sum 1/d_k)",
     "C19.refuse": "fields of the wrong number of components or the wrong spatial dimension are refused (ValueError for charge, density, emergent field, angles, Bloch points; any exception instead of a result for the demag functions)",
 }
 RULE = ("seeded textures (compact skyrmions of winding -2..3, smooth random, rough random, uniform) on anisotropic 2-d meshes with "
@@ -62,6 +76,10 @@ RULE = ("seeded textures (compact skyrmions of winding -2..3, smooth random, rou
         "neighbours 100..179 deg from the corner, nearly a hemisphere, quarter-sphere boundary, needle, tiny, nearly antipodal pair, exact octants / tetrahedron "
         "faces / coplanar), sharp skyrmions of radius 1.5..2.2 cells on 6..8 cell meshes (both polarities, both chiralities, reversed, rotated), rough lattices "
         "(random unit vectors, random interior inside a uniform frame) x masks (none, random, valid='norm') for the per-cell lattice density; non-trivial = more than one cell and a non-uniform texture (except the uniform kinds); "
+        "metadata configurations of the input field (5 non-identity permutations of vdim_mapping, empty / partial / all-None / repeated mapping, component labels incl. reversed x,y,z, "
+        "renamed / permuted direction names and units, unit, dtype float32 / int64 / int32, mask as array / 'norm' / default, 2-d field as a slice of a 3-d field along each axis; "
+        "2-d: the 6 placements of the two directions among the three components) x every tool (density / charge by both methods with their oracles, whole wraps, uniform fields, "
+        "invariances; hedgehogs, angles, emergent field, demag field and cuboid) each compared with the plain field holding the same numbers; "
         "distinct by (kind, params)")
 ASSUMPTIONS = [
     "bounded: 2-d meshes of at most 16 cells per axis, 3-d meshes of at most 10 cells per axis, seeded sample of textures, masks, rotations and scalings",
@@ -75,6 +93,12 @@ ASSUMPTIONS = [
     "coarse whole wraps: |w| = 1 and radius >= 1.5*sqrt((d1^2+d2^2)/2) (the four cells nearest to the core lie beyond the equator wherever the centre sits); below ~1.41 the sampled "
     "texture no longer wraps the sphere and nothing is claimed",
     "oracle for the signed solid angle: Girard's theorem (sum of the three dihedral angles - pi) evaluated with mpmath at 200 bits on the exact double inputs (treated as directions)",
+    "metadata cases: the numbers handed to a field with dtype= are exactly representable in that dtype (float32: rounded first; int: texture scaled to |.| <= 1000 and rounded), so the "
+    "plain float64 reference field holds the same numbers; float32 fields are processed by the library in float32, budgets use the float32 eps there",
+    "the demag functions look components and directions up by their default names: a refusal (any exception) of renamed components / directions is accepted there, nowhere else",
+    "demag_field of a field whose component labels are a permutation of x, y, z: both readings (by label, by stored position) are accepted",
+    "the meaning of the mask for the emergent field / angles is not stated by the property: masked cases compare with the plain field carrying the same mask, and with the oracle "
+    "only at cells whose stencil is entirely valid (angles: every pair, the tools ignore the mask)",
     "Aharoni's closed form for the demagnetising factors of a rectangular prism is trusted as oracle",
 ]
 
@@ -98,6 +122,120 @@ def _mesh(p0, n, cell, dims=None, units=None):
     if units is not None:
         kw["units"] = list(units)
     return df.Mesh(region=df.Region(p1=tuple(p0), p2=tuple(p2), **kw), n=tuple(int(k) for k in n))
+
+
+# ---- metadata of the input field -------------------------------------------------------------------------------------------------------
+# meta (JSON dict, every key optional):
+#   dims / units      names of the mesh directions / their units
+#   vdims             component labels
+#   mapping           "empty" -> vdim_mapping={}; list of 3 entries (index of a mesh direction or None) -> component k is declared to point along that
+#                     direction; absent -> keyword not given (library default)
+#   unit              physical unit of the field
+#   dtype             "float32" / "int64" / "int32": dtype= of the field (the array handed over holds numbers exactly representable in it)
+#   valid             "default" -> keyword not given; "norm" -> valid="norm"; absent -> the Boolean mask array
+#   slice_of (2-d)    k -> the 2-d field is obtained the documented way, as f3.sel(<dims3[k]>) of a 3-d field with one cell along direction k
+#                     (its mapping then names a direction the 2-d mesh does not have); dims3 = names of the three directions
+EPS32_RATIO = float(np.finfo(np.float32).eps) / float(np.finfo(float).eps)
+
+
+def _epsr(meta):
+    """rounding unit of the stored dtype in units of the double eps (float32 fields are processed in float32 by the library)"""
+    return EPS32_RATIO if (meta or {}).get("dtype") == "float32" else 1.0
+
+
+def _is_int(meta):
+    return str((meta or {}).get("dtype", "")).startswith("int")
+
+
+def _stored(arr, meta):
+    """float64 array holding exactly the numbers a field of the meta's dtype stores: float32 -> rounded to float32; int -> scaled to |.| <= 1000 and rounded
+    (a positive rescaling followed by a small perturbation of the texture: still a legitimate seeded texture)"""
+    dt = (meta or {}).get("dtype")
+    arr = np.asarray(arr, dtype=float)
+    if dt is None:
+        return arr
+    if dt.startswith("int"):
+        m = float(np.abs(arr).max())
+        return np.rint(arr * (1000.0 / m)) if m > 0 else np.zeros_like(arr)
+    return arr.astype(dt).astype(float)
+
+
+def _meta_kwargs(meta, dims, valid):
+    kw = {}
+    vd = meta.get("vdims")
+    if vd:
+        kw["vdims"] = list(vd)
+    names = list(vd) if vd else ["x", "y", "z"]
+    mp = meta.get("mapping")
+    if mp == "empty":
+        kw["vdim_mapping"] = {}
+    elif mp is not None:
+        kw["vdim_mapping"] = {names[k]: (None if t is None else dims[t]) for k, t in enumerate(mp)}
+    if meta.get("unit") is not None:
+        kw["unit"] = meta["unit"]
+    if meta.get("dtype") is not None:
+        kw["dtype"] = np.dtype(meta["dtype"])
+    v = meta.get("valid")
+    if v == "norm" or isinstance(valid, str):
+        kw["valid"] = "norm"
+    elif v != "default":
+        kw["valid"] = np.array(valid, dtype=bool)
+    return kw
+
+
+def _build(p0, n, cell, arr, valid, meta):
+    """the field with the given metadata holding the numbers arr (already in stored form, see _stored) and the mask valid (bool array or 'norm')"""
+    meta = meta or {}
+    n = [int(k) for k in n]
+    value = np.asarray(arr).astype(np.dtype(meta["dtype"])) if meta.get("dtype") else np.asarray(arr, dtype=float)
+    sl = meta.get("slice_of")
+    if sl is None:
+        mesh = _mesh(p0, n, cell, meta.get("dims"), meta.get("units"))
+        return df.Field(mesh, nvdim=3, value=value, **_meta_kwargs(meta, list(mesh.region.dims), valid))
+    thick = 0.7 * float(cell[0])
+    p3, n3, c3 = list(p0), list(n), list(cell)
+    p3.insert(sl, -0.3 * thick)
+    n3.insert(sl, 1)
+    c3.insert(sl, thick)
+    mesh3 = _mesh(p3, n3, c3, meta.get("dims3"), None)
+    v3 = valid if isinstance(valid, str) else np.expand_dims(np.asarray(valid, dtype=bool), sl)
+    f3 = df.Field(mesh3, nvdim=3, value=np.expand_dims(value, sl), **_meta_kwargs(meta, list(mesh3.region.dims), v3))
+    return f3.sel(mesh3.region.dims[sl])
+
+
+def _plain(p0, n, cell, arr, vb):
+    """the plain default-metadata float64 field with the same numbers and the same mask"""
+    return df.Field(_mesh(p0, n, cell), nvdim=3, value=np.asarray(arr, dtype=float), valid=np.array(vb, dtype=bool))
+
+
+def _meta_sig(meta):
+    """signature of a metadata dependence: which keys of the configuration are non-default"""
+    return "metadata:" + "+".join(sorted(k for k in (meta or {}) if k not in ("dims3",)))
+
+
+def _metas3(rng):
+    """metadata configurations of a 3-component field on a 3-d mesh (name -> meta)"""
+    out = [({"mapping": list(p)}) for p in itertools.permutations(range(3)) if p != (0, 1, 2)]
+    out += [{"mapping": "empty"}, {"mapping": [0, None, None]}, {"mapping": [None, None, None]}, {"mapping": [1, 1, 1]}, {"mapping": [0, 1, 2], "valid": "default"},
+            {"vdims": ["a", "b", "c"]}, {"vdims": ["z", "y", "x"]}, {"vdims": ["p", "q", "r"], "mapping": [1, 2, 0]},
+            {"dims": ["a", "b", "c"], "units": ["m", "um", "nm"]}, {"dims": ["z", "x", "y"]},
+            {"dims": ["y", "z", "x"], "vdims": ["mx", "my", "mz"], "mapping": [2, 0, 1], "unit": "A/m"},
+            {"unit": "A/m"}, {"dtype": "float32"}, {"dtype": "int64"}, {"dtype": "float32", "mapping": [2, 0, 1]}, {"dtype": "int32", "mapping": "empty"},
+            {"valid": "default"}, {"valid": "norm"}, {"valid": "norm", "mapping": [1, 0, 2], "unit": "T"}]
+    return out
+
+
+def _metas2(rng):
+    """metadata configurations of a 3-component field on a 2-d mesh"""
+    out = [{"mapping": list(p)} for p in ([0, 1, None], [1, 0, None], [None, 0, 1], [1, None, 0], [None, 1, 0], [0, None, 1])]
+    out += [{"mapping": "empty"}, {"valid": "default"}, {"mapping": [None, None, None]}, {"mapping": [0, 0, 0]}, {"mapping": [None, None, 1]},
+            {"vdims": ["a", "b", "c"]}, {"vdims": ["z", "y", "x"], "mapping": [0, 1, None]}, {"vdims": ["p", "q", "r"], "mapping": [None, 1, 0], "unit": "A/m"},
+            {"dims": ["a", "b"], "units": ["m", "um"]}, {"dims": ["y", "x"]}, {"dims": ["z", "y"], "units": ["nm", "nm"], "mapping": [1, None, 0]},
+            {"unit": "A/m"}, {"dtype": "float32"}, {"dtype": "int64"}, {"dtype": "float32", "mapping": [1, 0, None]}, {"dtype": "int32", "mapping": "empty"},
+            {"valid": "norm"}, {"valid": "norm", "mapping": [1, 0, None]},
+            {"slice_of": 2}, {"slice_of": 0}, {"slice_of": 1}, {"slice_of": 2, "dims3": ["a", "b", "c"], "vdims": ["u", "v", "w"], "mapping": [2, 0, 1]},
+            {"slice_of": 1, "dtype": "float32", "mapping": "empty"}]
+    return out
 
 
 def _centres(n, cell):
@@ -168,9 +306,19 @@ def _mask(mask, arr):
     return arr, np.ones(shape, dtype=bool)       # zero vectors, not masked
 
 
+def _tex_arr(pr):
+    """(numbers as stored by a field of the case's dtype, mask) of a 2-d case"""
+    arr, valid = _mask(pr.get("mask"), _texture2d(pr["tex"], pr["n"], pr["cell"]))
+    return _stored(arr, pr.get("meta")), valid
+
+
 def _field2d(pr, arr=None, valid=None, p0=None, cell=None):
     cell = pr["cell"] if cell is None else cell
     p0 = pr["p0"] if p0 is None else p0
+    if pr.get("meta") is not None:
+        if arr is None:
+            arr, valid = _tex_arr(pr)
+        return _build(p0, pr["n"], cell, arr, valid, pr["meta"])
     mesh = _mesh(p0, pr["n"], cell, pr.get("dims"), pr.get("units"))
     if arr is None:
         arr, valid = _mask(pr.get("mask"), _texture2d(pr["tex"], pr["n"], pr["cell"]))
@@ -257,7 +405,7 @@ def _bl_cell_triangles(arr, valid, i, j):
     return [(k, nb[k], nb[(k + 1) % 4]) for k in range(4) if ok[k] and ok[(k + 1) % 4]]
 
 
-def _bl_lattice_oracle(arr, valid):
+def _bl_lattice_oracle(arr, valid, R=1.0):
     """per cell: (sum of oracle areas as mpf, triangle count, rounding budget, [area of triangle k or None]*4)"""
     out = {}
     for i in range(valid.shape[0]):
@@ -272,7 +420,7 @@ def _bl_lattice_oracle(arr, valid):
                 with mp.workprec(200):
                     tot = tot + w
                 cnt += 1
-                bud += 32 * EPS / rho + 8 * EPS
+                bud += R * (32 * EPS / rho + 8 * EPS)
             out[i, j] = (tot, cnt, bud, per)
     return out
 
@@ -516,6 +664,79 @@ def cases(ctx):
     for n, cell in shapes:
         yield "demag_tensor", {"n": n, "cell": cell, "p0": (rng.uniform(-3, 3, size=3) * cell[0]).tolist()}
         yield "demag_cuboid", {"n": n, "cell": cell, "p0": (rng.uniform(-3, 3, size=3) * cell[0]).tolist(), "M": float(10.0 ** rng.uniform(-1, 6))}
+    # ---- metadata of the input field: every tool on fields with non-default mapping / labels / direction names / unit / dtype / form of the mask
+    reps = 1 if quick else 4
+    for i, meta in enumerate(_metas2(rng)):
+        for rep in range(reps):
+            def mask_for(k):
+                if meta.get("valid") == "default":
+                    return None
+                if meta.get("valid") == "norm":
+                    return None if (k + rep) % 2 else {"type": "norm", "p": 0.12, "seed": int(rng.integers(1 << 30))}
+                return [None, {"type": "random", "p": 0.15, "seed": int(rng.integers(1 << 30))}, {"type": "zeros", "p": 0.1, "seed": int(rng.integers(1 << 30))}][(i + k + rep) % 3]
+            n, cell, p0 = _geom2d(rng, 3, 7)
+            tex = {"type": ["smooth", "random"][(i + rep) % 2], "seed": int(rng.integers(1 << 30)), "length": float(10.0 ** rng.uniform(-3, 6))}
+            yield "density", {"n": n, "cell": cell, "p0": p0, "tex": tex, "mask": mask_for(0), "meta": meta}
+            n, cell, p0 = _geom2d(rng, 3, 7)
+            ttype = ["random", "frame", "smooth"][(i + rep) % 3]
+            tex = {"type": ttype, "seed": int(rng.integers(1 << 30)), "length": float(10.0 ** rng.uniform(-3, 6))}
+            m = mask_for(1)
+            if ttype == "frame":
+                tex["bg"] = rng.normal(size=3).tolist()
+                m = m if (m is None or m["type"] == "norm") and i % 2 else None
+            if m is not None and m["type"] == "zeros":
+                m = None            # unmasked zero vectors: the signed area is not defined (nothing claimed for the lattice method)
+            yield "bl_lattice", {"n": n, "cell": cell, "p0": p0, "tex": tex, "mask": m, "meta": meta}
+            if (i + rep) % 4 == 0:
+                n, cell, p0 = _geom2d(rng, 2, 6)
+                yield "uniform", {"n": n, "cell": cell, "p0": p0, "tex": {"type": "uniform", "v": (rng.normal(size=3) * 10.0 ** rng.uniform(-3, 6)).tolist()},
+                                  "mask": mask_for(2), "meta": meta}
+            if (i + rep) % 3 == 0:
+                wind = int(rng.choice([-1, 1]))
+                n, cell, p0 = _geom2d(rng, 10, 11)
+                cell = (cell[0] * rng.uniform(1.0, 1.25, size=2)).tolist()
+                pr = {"n": n, "cell": cell, "p0": p0, "tex": _skyrmion(rng, wind), "R": _rot_matrix(rng), "meta": meta}
+                pr["tex"]["length"] = float(10.0 ** rng.uniform(-3, 6))
+                yield "wrap", pr
+    # invariances on fields with permuted in-plane mapping / permuted direction names / reversed labels / a unit / obtained by slicing a 3-d field
+    for i, meta in enumerate([{"mapping": [1, 0, None], "unit": "A/m"}, {"dims": ["y", "x"], "mapping": [0, 1, None]}, {"vdims": ["z", "y", "x"], "mapping": [0, 1, None]},
+                              {"vdims": ["p", "q", "r"], "mapping": [None, 1, 0]}, {"slice_of": 2}, {"valid": "default", "mapping": [0, 1, None]}]):
+        for rep in range(reps):
+            ttype = ("skyrmion", "smooth", "random")[(i + rep) % 3]
+            lo, hi = (10, 12) if ttype == "skyrmion" else (3, 8)
+            n, cell, p0 = _geom2d(rng, lo, hi)
+            tex = _skyrmion(rng) if ttype == "skyrmion" else {"type": ttype, "seed": int(rng.integers(1 << 30))}
+            tex["length"] = float(10.0 ** rng.uniform(-3, 6))
+            ms = 10.0 ** rng.uniform(-3, 3, size=2)
+            yield "charge_inv", {"n": n, "cell": cell, "p0": p0, "tex": tex, "mask": None, "R": _rot_matrix(rng), "s": float(10.0 ** rng.uniform(-4, 12)),
+                                 "s_seed": int(rng.integers(1 << 30)), "mesh_scale": ms.tolist(), "mesh_shift": (rng.uniform(-30, 30, size=2) * ms * np.asarray(cell)).tolist(),
+                                 "k": 1 + (i + rep) % 3, "meta": meta}
+    for i, meta in enumerate(_metas3(rng)):
+        for rep in range(reps):
+            mask = None
+            if "valid" not in meta and (i + rep) % 3 == 0:
+                mask = {"p": 0.15, "seed": int(rng.integers(1 << 30))}
+            n = rng.integers(8, 10, size=3).tolist()
+            scale = float(10.0 ** rng.uniform(-9, 0))
+            cell = (scale * rng.uniform(1.0, 1.8, size=3)).tolist()
+            yield "hedgehog", {"n": n, "cell": cell, "p0": (rng.uniform(-3, 3, size=3) * scale).tolist(), "frac": rng.uniform(0.35, 0.65, size=3).tolist(),
+                               "length": float(10.0 ** rng.uniform(-3, 6)), "meta": meta}
+            n = rng.integers(3, 6, size=3).tolist()
+            scale = float(10.0 ** rng.uniform(-9, 3))
+            yield "angles", {"n": n, "cell": (scale * rng.uniform(1, 2, size=3)).tolist(), "p0": (rng.uniform(-3, 3, size=3) * scale * 5).tolist(),
+                             "seed": int(rng.integers(1 << 30)), "special": False, "length": float(10.0 ** rng.uniform(-3, 6)), "mask": mask, "meta": meta}
+            n = rng.integers(3, 6, size=3).tolist()
+            scale = float(10.0 ** rng.uniform(-9, 3))
+            yield "emergent", {"n": n, "cell": (scale * rng.uniform(1, 2, size=3)).tolist(), "p0": (rng.uniform(-3, 3, size=3) * scale).tolist(),
+                               "seed": int(rng.integers(1 << 30)), "uniform": False, "mask": mask, "meta": meta}
+            n = rng.integers(1, 4, size=3).tolist()
+            scale = float(10.0 ** rng.uniform(-9, 0))
+            cell = (scale * rng.uniform(1, 3, size=3)).tolist()
+            yield "demag_meta", {"n": n, "cell": cell, "p0": (rng.uniform(-3, 3, size=3) * scale).tolist(), "seed": int(rng.integers(1 << 30)),
+                                 "M": float(10.0 ** rng.uniform(-1, 6)), "mask": mask, "meta": meta}
+            if not (meta.get("vdims") or meta.get("dims")) and (i + rep) % 2 == 0:
+                yield "demag_cuboid", {"n": [2, 3, 2], "cell": (scale * np.array([3.0, 2.0, 3.0])).tolist(), "p0": (rng.uniform(-3, 3, size=3) * scale).tolist(),
+                                       "M": float(10.0 ** rng.uniform(-1, 6)), "meta": meta}
     # ---- refusals
     for nvdim, ndim in itertools.product((1, 2, 3, 4), (1, 2, 3)):
         yield "refuse", {"nvdim": nvdim, "ndim": ndim, "seed": int(rng.integers(1 << 30))}
@@ -592,7 +813,7 @@ def _check_charge_inv(pr, ctx):
 
 
 def _check_uniform(pr, ctx):
-    arr, valid = _mask(pr.get("mask"), _texture2d(pr["tex"], pr["n"], pr["cell"]))
+    arr, valid = _tex_arr(pr)
     f = _field2d(pr, arr, valid)
     for m in METHODS:
         q = dft.topological_charge_density(f, method=m)
@@ -604,14 +825,21 @@ def _check_uniform(pr, ctx):
 
 
 def _check_wrap(pr, ctx):
-    f = _field2d(pr, _texture2d(pr["tex"], pr["n"], pr["cell"]), np.ones(pr["n"], dtype=bool))
+    arr0, _ = _tex_arr(pr)
+    f = _field2d(pr, arr0, np.ones(pr["n"], dtype=bool))
     want = -pr["tex"]["wind"] * pr["tex"]["pol"]
     Q = _Q(f, "berg-luescher")
-    ctx.require(abs(Q - round(Q)) <= 1e-9, "C19.bl_integer", "Berg-Luescher charge of a whole wrap is not an integer", got=Q)
-    ctx.require(abs(Q - want) <= 1e-9, "C19.bl_integer", "Berg-Luescher charge differs from the known winding -w*p", got=Q, want=want)
-    g = _field2d(pr, f.array @ np.asarray(pr["R"]).T, np.ones(pr["n"], dtype=bool))
+    # float32 fields: the library normalises in float32, the vectors handed to the lattice formula are unit to 6e-8 only -> 64 float32 ulp instead of 1e-9
+    ti = 1e-9 if _epsr(pr.get("meta")) == 1.0 else 64 * EPS * _epsr(pr.get("meta"))
+    if pr.get("meta") is not None:
+        Q0 = _Q(_plain(pr["p0"], pr["n"], pr["cell"], arr0, np.ones(pr["n"], dtype=bool)), "berg-luescher")
+        ctx.require(abs(Q - Q0) <= ti, "C19.meta_independent", "Berg-Luescher charge of a whole wrap depends on the metadata of the field", sig=_meta_sig(pr["meta"]),
+                    got=Q, plain=Q0, meta=pr["meta"])
+    ctx.require(abs(Q - round(Q)) <= ti, "C19.bl_integer", "Berg-Luescher charge of a whole wrap is not an integer", got=Q, meta=pr.get("meta"))
+    ctx.require(abs(Q - want) <= ti, "C19.bl_integer", "Berg-Luescher charge differs from the known winding -w*p", got=Q, want=want, meta=pr.get("meta"))
+    g = _field2d(pr, _stored(arr0 @ np.asarray(pr["R"]).T, pr.get("meta")), np.ones(pr["n"], dtype=bool))
     Qr = _Q(g, "berg-luescher")
-    ctx.require(abs(Qr - want) <= 1e-9, "C19.bl_integer", "Berg-Luescher charge of the rotated whole wrap differs from -w*p", got=Qr, want=want)
+    ctx.require(abs(Qr - want) <= ti, "C19.bl_integer", "Berg-Luescher charge of the rotated whole wrap differs from -w*p", got=Qr, want=want, meta=pr.get("meta"))
     Qa = _Q(f, "berg-luescher", absolute=True)
     ctx.require(Qa >= abs(Q) - 1e-9, "C19.charge_integral", "absolute charge smaller than |charge|", got=Qa, Q=Q)
     Qc = _Q(f, "continuous")
@@ -716,20 +944,22 @@ def _check_wrap_coarse(pr, ctx):
 
 def _check_bl_lattice(pr, ctx):
     n = pr["n"]
-    arr, valid = _mask(pr.get("mask"), _texture2d(pr["tex"], n, pr["cell"]))
+    meta = pr.get("meta")
+    R = _epsr(meta)
+    arr, valid = _tex_arr(pr)
     f = _field2d(pr, arr, valid)
-    vb = (np.linalg.norm(arr, axis=-1) > 0) if isinstance(valid, str) else valid
+    vb = (np.linalg.norm(arr, axis=-1) > 0) if (isinstance(valid, str) or (meta or {}).get("valid") == "norm") else valid
     d1, d2 = (float(c) for c in f.mesh.cell)
     half_area = 0.5 * d1 * d2
     r, q = raises(Exception, dft.topological_charge_density, f, method="berg-luescher")
     if r:
         ctx.require(False, "C19.density_bl", "topological_charge_density raised", sig="raised:" + type(q).__name__, error=repr(q))
         return
-    okm = q.nvdim == 1 and q.mesh == f.mesh and q.array.shape == (*n, 1)
+    okm = q.nvdim == 1 and q.mesh == f.mesh and q.array.shape == (*n, 1) and tuple(q.mesh.region.dims) == tuple(f.mesh.region.dims)
     ctx.require(okm, "C19.density_bl", "lattice density is not a scalar field on the same mesh")
     if not okm:
         return
-    orc = _bl_lattice_oracle(arr, vb)
+    orc = _bl_lattice_oracle(arr, vb, R)
     ntri = sum(c[1] for c in orc.values())
     if ntri == 0:
         ctx.trivial()
@@ -751,6 +981,15 @@ def _check_bl_lattice(pr, ctx):
     Qw = float(Qw)
     Q = _Q(f, "berg-luescher")
     ctx.require(abs(Q - Qw) <= Qb + 64 * EPS * max(1.0, abs(Qw)), "C19.density_bl", "lattice charge differs from the weighted sum of the oracle triangle areas", got=Q, want=Qw, tol=Qb)
+    if meta is not None:
+        f0 = _plain(pr["p0"], n, pr["cell"], arr, vb)
+        q0 = dft.topological_charge_density(f0, method="berg-luescher")
+        tolc = np.array([[2 * orc[i, j][2] / (orc[i, j][1] * half_area) if orc[i, j][1] else 0.0 for j in range(n[1])] for i in range(n[0])])
+        ctx.require(np.all(np.abs(q.array[..., 0] - q0.array[..., 0]) <= tolc), "C19.meta_independent", "lattice density depends on the metadata of the field",
+                    sig=_meta_sig(meta), worst=float(np.max(np.abs(q.array - q0.array))) * 2 * half_area, meta=meta)
+        Q0 = _Q(f0, "berg-luescher")
+        ctx.require(abs(Q - Q0) <= 2 * Qb + 64 * EPS * max(1.0, abs(Q0)), "C19.meta_independent", "lattice charge depends on the metadata of the field", sig=_meta_sig(meta),
+                    got=Q, plain=Q0, meta=meta)
     if pr.get("mask") is None and min(n) >= 3 and _uniform_frame(arr):
         NA, NB = _two_triangulations(orc, n)
         if abs(NA - mp.nint(NA)) > 1e-30 or abs(NB - mp.nint(NB)) > 1e-30:
@@ -765,16 +1004,22 @@ def _check_bl_lattice(pr, ctx):
 
 def _check_density(pr, ctx):
     n = pr["n"]
-    arr, valid = _mask(pr.get("mask"), _texture2d(pr["tex"], n, pr["cell"]))
+    meta = pr.get("meta")
+    arr, valid = _tex_arr(pr)
     f = _field2d(pr, arr, valid)
-    vb = f.valid
+    vb = np.array(f.valid, dtype=bool)
+    if meta is not None:
+        vwant = (np.linalg.norm(arr, axis=-1) > 0) if (isinstance(valid, str) or meta.get("valid") == "norm") else valid
+        ctx.require(vb.shape == tuple(n) and np.array_equal(vb, vwant), "C19.meta_independent", "the field does not carry the mask it was given", sig=_meta_sig(meta), meta=meta)
+        vb = np.array(vwant, dtype=bool)
     d1, d2 = (float(c) for c in f.mesh.cell)
     dA = d1 * d2
     q = dft.topological_charge_density(f, method="continuous")
-    ctx.require(q.nvdim == 1 and q.mesh == f.mesh and q.array.shape == (*n, 1), "C19.density_continuous", "density is not a scalar field on the same mesh")
+    ctx.require(q.nvdim == 1 and q.mesh == f.mesh and q.array.shape == (*n, 1) and tuple(q.mesh.region.dims) == tuple(f.mesh.region.dims), "C19.density_continuous",
+                "density is not a scalar field on the same mesh")
     u = _unit(arr)
     ok, worst, cnt = True, None, 0
-    tol = 256 * EPS / (4 * np.pi * dA)
+    tol = 256 * EPS * _epsr(meta) / (4 * np.pi * dA)
     for i in range(1, n[0] - 1):
         for j in range(1, n[1] - 1):
             if not (vb[i, j] and vb[i - 1, j] and vb[i + 1, j] and vb[i, j - 1] and vb[i, j + 1]):
@@ -788,7 +1033,17 @@ def _check_density(pr, ctx):
                 ok, worst = False, (i, j, got, want)
     if cnt == 0:
         ctx.trivial()
-    ctx.require(ok, "C19.density_continuous", "continuous density differs from n.(d1n x d2n)/4pi at an interior cell", worst=worst, tol=tol)
+    ctx.require(ok, "C19.density_continuous", "continuous density differs from n.(d1n x d2n)/4pi at an interior cell", worst=worst, tol=tol, meta=meta)
+    if meta is not None:
+        f0 = _plain(pr["p0"], n, pr["cell"], arr, vb)
+        q0 = dft.topological_charge_density(f0, method="continuous")
+        ctx.require(q.array.shape == q0.array.shape and np.all(np.abs(q.array - q0.array) <= 2 * tol), "C19.meta_independent",
+                    "continuous density depends on the metadata of the field (all cells, one-sided stencils at the border and next to invalid cells included)",
+                    sig=_meta_sig(meta), worst=float(np.max(np.abs(q.array - q0.array))) if q.array.shape == q0.array.shape else None, tol=2 * tol, meta=meta)
+        for a in (False, True):
+            Qm, Q0 = _Q(f, "continuous", absolute=a), _Q(f0, "continuous", absolute=a)
+            t0 = 2 * tol * dA * int(np.prod(n))
+            ctx.require(abs(Qm - Q0) <= t0, "C19.meta_independent", "continuous charge depends on the metadata of the field", sig=_meta_sig(meta), got=Qm, plain=Q0, absolute=a, meta=meta)
     for m in METHODS:
         qd = dft.topological_charge_density(f, method=m)
         s = float(qd.array.sum() * dA)
@@ -806,24 +1061,35 @@ def _hedgehog_field(pr, sign=1.0):
     X = _centres(n, cell) - c
     # vector lengths: 'length' times the distance in units of the smallest cell edge; raw=True: the bare coordinates r-c
     fac = 1.0 if pr.get("raw") else pr["length"] / float(np.min(cell))
-    return df.Field(mesh, nvdim=3, value=sign * fac * X), c
+    if pr.get("meta") is not None:
+        arr = _stored(sign * fac * X, pr["meta"])
+        return _build(pr["p0"], n, cell, arr, np.ones(n, dtype=bool), pr["meta"]), c, arr
+    return df.Field(mesh, nvdim=3, value=sign * fac * X), c, None
 
 
 def _check_hedgehog(pr, ctx):
     n, cell = pr["n"], np.asarray(pr["cell"])
     TINY = "tiny-vectors-treated-as-zero(np.isclose atol=1e-8 in orientation)"
+    meta = pr.get("meta")
     for sign in (1.0, -1.0):
-        f, c = _hedgehog_field(pr, sign)
+        f, c, arr = _hedgehog_field(pr, sign)
         tiny = TINY if float(np.linalg.norm(f.array, axis=-1).max()) < 1e-6 else None
+        f0 = None if meta is None else _plain(pr["p0"], n, cell, arr, np.ones(n, dtype=bool))
         for a, d in enumerate(f.mesh.region.dims):
             r, res = raises(Exception, dft.count_bps, f, d)
             if r:
-                ctx.require(False, "C19.bp_hedgehog", "count_bps raised", sig="raised:" + type(res).__name__, error=repr(res))
+                ctx.require(False, "C19.bp_hedgehog", "count_bps raised", sig="raised:" + type(res).__name__, error=repr(res), direction=d, meta=meta)
                 continue
+            if f0 is not None:
+                d0 = "xyz"[a]
+                res0 = dft.count_bps(f0, d0)
+                same = (set(res) == {"bp_number", "bp_number_hh", "bp_number_tt", "bp_pattern_" + d}
+                        and all(res.get(k) == res0[k] for k in ("bp_number", "bp_number_hh", "bp_number_tt")) and res.get("bp_pattern_" + d) == res0["bp_pattern_" + d0])
+                ctx.require(same, "C19.meta_independent", "Bloch-point count / arrangement depends on the metadata of the field", sig=_meta_sig(meta), direction=d, got=res, plain=res0, meta=meta)
             want = {"bp_number": 1.0, "bp_number_tt": 1.0 if sign > 0 else 0.0, "bp_number_hh": 0.0 if sign > 0 else 1.0}
             got = {k: res.get(k) for k in want}
             ctx.require(got == want, "C19.bp_hedgehog", "hedgehog not counted as one %s Bloch point" % ("tail-to-tail" if sign > 0 else "head-to-head"),
-                        sig=tiny, direction=d, got=res, want=want)
+                        sig=tiny, direction=d, got=res, want=want, meta=meta)
             pat = res.get("bp_pattern_" + d)
             try:
                 runs = [(float(v), int(k)) for v, k in eval(pat, {"__builtins__": {}})]
@@ -861,9 +1127,18 @@ def _vec_field(pr):
 def _check_angles(pr, ctx):
     n, cell = pr["n"], np.asarray(pr["cell"])
     ndim = len(n)
-    mesh = _mesh(pr["p0"], n, cell)
-    arr = _vec_field(pr)
-    f = df.Field(mesh, nvdim=3, value=arr)
+    meta = pr.get("meta")
+    R = _epsr(meta)
+    arr = _stored(_vec_field(pr), meta)
+    if meta is not None:
+        vb = np.ones(n, dtype=bool) if pr.get("mask") is None else _mask(dict(pr["mask"], type="random"), arr)[1]
+        f = _build(pr["p0"], n, cell, arr, vb, meta)
+        f0 = _plain(pr["p0"], n, cell, arr, vb)
+        mesh = f.mesh
+    else:
+        mesh = _mesh(pr["p0"], n, cell)
+        f = df.Field(mesh, nvdim=3, value=arr)
+        f0 = None
     u = _unit(arr)
     tiny = "tiny-vectors-treated-as-zero(np.isclose atol=1e-8 in orientation)" if float(np.linalg.norm(arr, axis=-1).min()) < 1e-6 else None
     pmin, pmax = np.asarray(mesh.region.pmin), np.asarray(mesh.region.pmax)
@@ -883,7 +1158,7 @@ def _check_angles(pr, ctx):
         lo[a], hi[a] = slice(0, n[a] - 1), slice(1, n[a])
         U, V = u[tuple(lo)], u[tuple(hi)]
         want = np.arctan2(np.linalg.norm(np.cross(U, V), axis=-1), np.einsum("...k,...k->...", U, V))
-        tol = 64 * EPS / np.maximum(np.sin(want), math.sqrt(EPS)) + 64 * EPS * np.pi
+        tol = 64 * EPS * R / np.maximum(np.sin(want), math.sqrt(EPS * R)) + 64 * EPS * R * np.pi
         per_dir[d] = want
         for units, fac in (("rad", 1.0), ("deg", 180.0 / np.pi)):
             r, g = raises(Exception, dft.neighbouring_cell_angle, f, d, units=units)
@@ -899,13 +1174,20 @@ def _check_angles(pr, ctx):
             okm = okm and np.all(np.abs(np.asarray(g.mesh.region.pmin) - wmin) <= 8 * EPS * cscale) and np.all(np.abs(np.asarray(g.mesh.region.pmax) - wmax) <= 8 * EPS * cscale)
             okm = okm and np.all(np.abs(np.asarray(g.mesh.cell) - cell) <= 8 * EPS * np.maximum(cell, cscale))
             ctx.require(okm, "C19.angle_mesh", "angle field lives on the wrong mesh", direction=d, got_n=g.mesh.n, want_n=nn, got_pmin=g.mesh.region.pmin, want_pmin=wmin)
+            okd = tuple(g.mesh.region.dims) == tuple(mesh.region.dims) and tuple(g.mesh.region.units) == tuple(mesh.region.units)
+            ctx.require(okd, "C19.angle_mesh", "the mesh of the angle field does not keep the names / units of the directions of the field's mesh",
+                        sig="angle-mesh-loses-dims-units", direction=d, got=(g.mesh.region.dims, g.mesh.region.units), want=(mesh.region.dims, mesh.region.units))
             if not (g.array.shape == (*nn, 1)):
                 continue
             got = g.array[..., 0]
             ctx.require(np.all(got >= 0) and np.all(got <= np.pi * fac * (1 + 2 * EPS)) and not np.any(np.isnan(got)), "C19.angle_range", "angle outside [0, pi]",
                         units=units, lo=float(got.min()), hi=float(got.max()))
             ctx.require(np.all(np.abs(got - want * fac) <= tol * fac), "C19.angle_value", "angle differs from the angle between the unit vectors", sig=tiny, units=units, direction=d,
-                        err=float(np.max(np.abs(got - want * fac))))
+                        err=float(np.max(np.abs(got - want * fac))), meta=meta)
+            if f0 is not None:
+                g0 = dft.neighbouring_cell_angle(f0, "xyz"[a], units=units)
+                ctx.require(g0.array.shape == g.array.shape and np.all(np.abs(got - g0.array[..., 0]) <= 2 * tol * fac), "C19.meta_independent",
+                            "neighbour angles depend on the metadata of the field", sig=tiny or _meta_sig(meta), units=units, direction=d, meta=meta)
     r, g = raises(Exception, dft.max_neighbouring_cell_angle, f)
     if r:
         # one cell in a direction: no neighbour angle exists there (n-1 = 0 cells), raising is accepted
@@ -921,43 +1203,98 @@ def _check_angles(pr, ctx):
         lo[a], hi[a] = slice(0, n[a] - 1), slice(1, n[a])
         want[tuple(lo)] = np.maximum(want[tuple(lo)], per_dir[d])
         want[tuple(hi)] = np.maximum(want[tuple(hi)], per_dir[d])
-    tol = 64 * EPS / np.maximum(np.sin(want), math.sqrt(EPS)) + 64 * EPS * np.pi
-    ctx.require(g.nvdim == 1 and g.mesh == mesh and g.array.shape == (*n, 1) and np.all(np.abs(g.array[..., 0] - want) <= tol), "C19.angle_max",
-                "maximum neighbour angle differs from the maximum over the neighbours", sig=tiny)
+    tol = 64 * EPS * R / np.maximum(np.sin(want), math.sqrt(EPS * R)) + 64 * EPS * R * np.pi
+    ctx.require(g.nvdim == 1 and g.mesh == mesh and tuple(g.mesh.region.dims) == tuple(mesh.region.dims) and g.array.shape == (*n, 1)
+                and np.all(np.abs(g.array[..., 0] - want) <= tol), "C19.angle_max",
+                "maximum neighbour angle differs from the maximum over the neighbours", sig=tiny, meta=meta)
+    if f0 is not None:
+        g0 = dft.max_neighbouring_cell_angle(f0)
+        ctx.require(g0.array.shape == g.array.shape and np.all(np.abs(g.array - g0.array)[..., 0] <= 2 * tol), "C19.meta_independent",
+                    "maximum neighbour angle depends on the metadata of the field", sig=tiny or _meta_sig(meta), meta=meta)
 
 
 def _check_emergent(pr, ctx):
     n, cell = pr["n"], np.asarray(pr["cell"])
-    mesh = _mesh(pr["p0"], n, cell)
+    meta = pr.get("meta")
+    R = _epsr(meta)
     rng = np.random.default_rng(pr["seed"])
     if pr["uniform"]:
         arr = np.broadcast_to(_unit(rng.normal(size=3)), (*n, 3)).copy()
     else:
         arr = _unit(rng.normal(size=(*n, 3)) + 2 * rng.normal(size=3))
-    f = df.Field(mesh, nvdim=3, value=arr)
-    F = dft.emergent_magnetic_field(f)
-    ctx.require(F.nvdim == 3 and F.mesh == mesh and F.array.shape == (*n, 3), "C19.emergent", "emergent field is not a 3-component field on the same mesh")
+    arr = _stored(arr, meta)
+    vb = np.ones(n, dtype=bool) if pr.get("mask") is None else _mask(dict(pr["mask"], type="random"), arr)[1]
+    if meta is not None:
+        f = _build(pr["p0"], n, cell, arr, vb, meta)
+        f0 = _plain(pr["p0"], n, cell, arr, vb)
+        mesh = f.mesh
+    else:
+        mesh = _mesh(pr["p0"], n, cell)
+        f = df.Field(mesh, nvdim=3, value=arr)
+        f0 = None
+    intsig = "int-dtype-derivative-truncated(Field.diff writes the quotient into an integer array)" if _is_int(meta) else None
+    r, F = raises(Exception, dft.emergent_magnetic_field, f)
+    if r:
+        ctx.require(False, "C19.emergent", "emergent_magnetic_field raised on a 3-component field on a 3-d mesh", sig="raised:" + type(F).__name__, error=repr(F), meta=meta)
+        return
+    dims = list(mesh.region.dims)
+    ctx.require(F.nvdim == 3 and F.mesh == mesh and list(F.mesh.region.dims) == dims and F.array.shape == (*n, 3), "C19.emergent",
+                "emergent field is not a 3-component field on the same mesh", meta=meta)
+    # component k of the emergent field belongs to the k-th direction of the mesh, whatever the input's components are declared to point along
+    okmap = F.nvdim == 3 and F.vdims is not None and len(F.vdims) == 3 and dict(F.vdim_mapping) == dict(zip(F.vdims, dims))
+    ctx.require(okmap, "C19.emergent_meta", "component k of the emergent field is not declared to belong to the k-th direction of the mesh",
+                sig=None if meta is None else _meta_sig(meta), got=F.vdim_mapping, vdims=F.vdims, dims=dims, meta=meta)
     inv = 1.0 / cell
-    tol = 256 * EPS * np.array([inv[1] * inv[2], inv[2] * inv[0], inv[0] * inv[1]])
+    s3 = max(1.0, float(np.abs(arr).max())) ** 3
+    tol = 256 * EPS * R * s3 * np.array([inv[1] * inv[2], inv[2] * inv[0], inv[0] * inv[1]])
+    if f0 is not None:
+        F0 = dft.emergent_magnetic_field(f0)
+        ctx.require(F.array.shape == F0.array.shape and np.all(np.abs(F.array - F0.array) <= 2 * tol), "C19.meta_independent",
+                    "emergent field depends on the metadata of the field (all cells, one-sided stencils included)", sig=intsig or _meta_sig(meta),
+                    worst=float(np.max(np.abs(F.array - F0.array))) if F.array.shape == F0.array.shape else None, tol=(2 * tol), meta=meta)
+    # its divergence (what the Bloch-point count integrates) is the spatial one: sum_k d_k F_k, central differences in the interior
+    rd, D = raises(Exception, lambda: F.div)
+    if rd:
+        ctx.require(False, "C19.emergent_meta", "the divergence of the emergent field cannot be taken", sig="div-raised:" + type(D).__name__, error=repr(D), meta=meta)
+    elif min(n) >= 3 and F.array.shape == (*n, 3):
+        A = np.asarray(F.array, dtype=float)
+        want = ((A[2:, 1:-1, 1:-1, 0] - A[:-2, 1:-1, 1:-1, 0]) * inv[0] / 2 + (A[1:-1, 2:, 1:-1, 1] - A[1:-1, :-2, 1:-1, 1]) * inv[1] / 2
+                + (A[1:-1, 1:-1, 2:, 2] - A[1:-1, 1:-1, :-2, 2]) * inv[2] / 2)
+        inner = np.ones(n, dtype=bool)
+        if not vb.all():
+            # central stencil only where the cell and its six neighbours are valid
+            inner = vb.copy()
+            for a in range(3):
+                inner &= np.roll(vb, 1, axis=a) & np.roll(vb, -1, axis=a)
+        inner = inner[1:-1, 1:-1, 1:-1]
+        tdiv = 64 * EPS * R * float(np.abs(A).max() + 1e-300) * float(inv.sum())
+        got = np.asarray(D.array, dtype=float)[1:-1, 1:-1, 1:-1, 0]
+        ctx.require(D.nvdim == 1 and np.all(np.abs(got - want)[inner] <= tdiv), "C19.emergent_meta",
+                    "the divergence of the emergent field is not sum_k d_k F_k over the directions of the mesh", sig=None if meta is None else _meta_sig(meta),
+                    worst=float(np.max(np.abs(got - want)[inner])) if inner.any() else 0.0, tol=tdiv, mapping=F.vdim_mapping, meta=meta)
     if pr["uniform"]:
-        ctx.require(np.all(np.abs(F.array) <= tol), "C19.emergent", "emergent field of a uniform field is not zero", got=float(np.abs(F.array).max()))
+        ctx.require(np.all(np.abs(F.array) <= tol), "C19.emergent", "emergent field of a uniform field is not zero", got=float(np.abs(F.array).max()), meta=meta)
         return
     if min(n) < 3:
         ctx.trivial()
         return
     ok, worst = True, None
     for idx in itertools.product(*[range(1, k - 1) for k in n]):
+        nbok = bool(vb[idx])
         d = []
         for a in range(3):
             up, dn = list(idx), list(idx)
             up[a] += 1
             dn[a] -= 1
+            nbok = nbok and bool(vb[tuple(up)]) and bool(vb[tuple(dn)])
             d.append((arr[tuple(up)] - arr[tuple(dn)]) * inv[a] / 2)
+        if not nbok:
+            continue
         m = arr[idx]
         want = np.array([np.dot(m, np.cross(d[1], d[2])), np.dot(m, np.cross(d[2], d[0])), np.dot(m, np.cross(d[0], d[1]))])
         if np.any(np.abs(F.array[idx] - want) > tol):
             ok, worst = False, (idx, F.array[idx].tolist(), want.tolist())
-    ctx.require(ok, "C19.emergent", "emergent field differs from m.(d_k m x d_l m) at an interior cell", worst=worst)
+    ctx.require(ok, "C19.emergent", "emergent field differs from m.(d_k m x d_l m) at an interior cell", sig=intsig, worst=worst, meta=meta)
 
 
 def _noncubic(cell):
@@ -1008,6 +1345,9 @@ def _check_demag_tensor(pr, ctx):
 
 def _check_demag_cuboid(pr, ctx):
     n, cell, M = [int(k) for k in pr["n"]], np.asarray(pr["cell"], dtype=float), pr["M"]
+    meta = pr.get("meta")
+    if meta is not None:
+        M = float(_stored(np.array([M]), meta)[0])       # the magnitude as a field of that dtype stores it
     mesh = _mesh(pr["p0"], n, cell)
     B = _budget_newell(n, cell)
     sig = "noncubic-cell-edges-not-permuted-with-coordinates" if _noncubic(cell) else None
@@ -1017,10 +1357,13 @@ def _check_demag_cuboid(pr, ctx):
     for k in range(3):
         v = [0.0, 0.0, 0.0]
         v[k] = M
-        m = df.Field(mesh, nvdim=3, value=tuple(v))
+        if meta is not None:
+            m = _build(pr["p0"], n, cell, np.broadcast_to(np.asarray(v), (*n, 3)).copy(), np.ones(n, dtype=bool), meta)
+        else:
+            m = df.Field(mesh, nvdim=3, value=tuple(v))
         r, h = raises(Exception, dft.demag_field, m, t)
         if r:
-            ctx.require(False, "C19.demag_cuboid", "demag_field raised", sig="raised:" + type(h).__name__, error=repr(h))
+            ctx.require(False, "C19.demag_cuboid", "demag_field raised", sig="raised:" + type(h).__name__, error=repr(h), meta=meta)
             return
         ok = h.nvdim == 3 and h.mesh == mesh and not np.iscomplexobj(h.array)
         ctx.require(ok, "C19.demag_cuboid", "demag field is not a real 3-component field on the magnetisation's mesh")
@@ -1035,6 +1378,57 @@ def _check_demag_cuboid(pr, ctx):
         ctx.require(np.all(np.abs(diag + M / 3) <= tol), "C19.demag_cuboid", "cube: mean demag component is not -M/3", sig=sig, got=diag, want=-M / 3)
     N = np.asarray(_aharoni(L / np.min(L)))
     ctx.require(np.all(np.abs(diag + N * M) <= tol + 1e-11 * M), "C19.demag_factors", "mean demag component differs from -N_k M (Aharoni)", sig=sig, got=(diag / M), want=(-N))
+
+
+def _check_demag_meta(pr, ctx):
+    """demag tensor / field of a seeded magnetisation with non-default metadata against the plain field with the same numbers"""
+    n, cell, meta = [int(k) for k in pr["n"]], np.asarray(pr["cell"], dtype=float), pr["meta"]
+    rng = np.random.default_rng(pr["seed"])
+    arr = _stored(rng.normal(size=(*n, 3)) * pr["M"], meta)
+    vb = np.ones(n, dtype=bool) if pr.get("mask") is None else _mask(dict(pr["mask"], type="random"), arr)[1]
+    f = _build(pr["p0"], n, cell, arr, vb, meta)
+    f0 = _plain(pr["p0"], n, cell, arr, vb)
+    B = _budget_newell(n, cell)
+    scale = float(np.abs(arr).max())
+    t0 = dft.demag_tensor(f0.mesh)
+    h0 = dft.demag_field(f0, t0)
+    alt = None
+    if meta.get("vdims") and sorted(meta["vdims"]) == ["x", "y", "z"]:
+        # components labelled with a permutation of x, y, z: the implementation picks the components by these names; whether the label or the stored position says which
+        # component is 'x' is not decided by the property - either reading is accepted (result components in x, y, z order)
+        order = [list(meta["vdims"]).index(c) for c in "xyz"]
+        alt = dft.demag_field(_plain(pr["p0"], n, cell, arr[..., order], vb), t0)
+    # the labels the implementation looks up by name: renamed components / directions may be refused (any exception, as in C19.refuse), everything else must work
+    relabelled = bool(meta.get("vdims") or meta.get("dims"))
+    r, t = raises(Exception, dft.demag_tensor, f.mesh)
+    if r:
+        ctx.require(relabelled, "C19.meta_independent", "demag_tensor raised for the mesh of a legal field", sig="raised:" + type(t).__name__, error=repr(t), meta=meta)
+        return
+    ctx.require(t.array.shape == t0.array.shape and np.all(np.abs(t.array - t0.array) <= B + 64 * EPS), "C19.meta_independent",
+                "demag tensor depends on the names / units of the mesh directions", sig=_meta_sig(meta), meta=meta)
+    r, h = raises(Exception, dft.demag_field, f, t)
+    if r:
+        ctx.require(relabelled, "C19.meta_independent", "demag_field raised for a legal field with default component and direction names", sig="raised:" + type(h).__name__,
+                    error=repr(h), meta=meta)
+        return
+    ok = h.nvdim == 3 and h.array.shape == (*n, 3) and not np.iscomplexobj(h.array)
+    if alt is not None and ok and np.all(np.abs(h.array - alt.array) <= (B + 256 * EPS) * scale):
+        return
+    ctx.require(ok and np.all(np.abs(h.array - h0.array) <= (B + 256 * EPS) * scale), "C19.meta_independent", "demag field depends on the metadata of the magnetisation",
+                sig=_meta_sig(meta), worst=float(np.max(np.abs(h.array - h0.array))) if ok else None, tol=(B + 256 * EPS) * scale, meta=meta)
+    # independent value: direct real-space sum with the real-space tensor obtained from the plain mesh's Fourier tensor (inverse DFT by numpy), interior of the convolution
+    N = np.fft.ifftn(np.fft.ifftshift(np.asarray(t0.array), axes=(0, 1, 2)), axes=(0, 1, 2)).real
+    comp = {(0, 0): 0, (1, 1): 1, (2, 2): 2, (0, 1): 3, (1, 0): 3, (0, 2): 4, (2, 0): 4, (1, 2): 5, (2, 1): 5}
+    want = np.zeros((*n, 3))
+    for i in itertools.product(*[range(k) for k in n]):
+        for j in itertools.product(*[range(k) for k in n]):
+            dlt = tuple(i[a] - j[a] + n[a] - 1 for a in range(3))
+            for a in range(3):
+                for b in range(3):
+                    want[i][a] += N[dlt][comp[a, b]] * arr[j][b]
+    ctx.require(ok and np.all(np.abs(h.array - want) <= (B + 256 * EPS) * scale * int(np.prod(n))), "C19.meta_independent",
+                "demag field differs from the real-space sum over cells of N(r_i - r_j) M_j on the stored component arrays (component order of the array)",
+                sig=_meta_sig(meta), worst=float(np.max(np.abs(h.array - want))) if ok else None, meta=meta)
 
 
 _REFUSE_2D = ("topological_charge", "topological_charge_density")
